@@ -19,6 +19,12 @@ let fst = function
 let snd = function
 | (_, y) -> y
 
+(** val length : 'a1 list -> nat **)
+
+let rec length = function
+| [] -> O
+| _ :: l' -> S (length l')
+
 type comparison =
 | Eq
 | Lt
@@ -53,6 +59,20 @@ type z =
 | Z0
 | Zpos of positive
 | Zneg of positive
+
+module Nat =
+ struct
+  (** val eqb : nat -> nat -> bool **)
+
+  let rec eqb n0 m =
+    match n0 with
+    | O -> (match m with
+            | O -> true
+            | S _ -> false)
+    | S n' -> (match m with
+               | O -> false
+               | S m' -> eqb n' m')
+ end
 
 module Pos =
  struct
@@ -1155,3 +1175,74 @@ let nbh_inside d f bc p =
   forallb (fun e ->
     (&&) (in_shapeb f.shape (psub p (fst e)))
       (in_shapeb f.shape (padd p (fst e)))) (support d bc)
+
+(** val mk : arr -> z list -> arr **)
+
+let mk f x =
+  { shape = f.shape; data = x }
+
+(** val pmin : z list -> z list -> z list **)
+
+let pmin a b =
+  map (fun ab -> Z.min (fst ab) (snd ab)) (combine a b)
+
+(** val pmax : z list -> z list -> z list **)
+
+let pmax a b =
+  map (fun ab -> Z.max (fst ab) (snd ab)) (combine a b)
+
+(** val mh_open : dt -> arr -> arr -> z list **)
+
+let mh_open d f bc =
+  dilate_generic d (mk f (erode_generic d f bc)) bc
+
+(** val mh_close : dt -> arr -> arr -> z list **)
+
+let mh_close d f bc =
+  erode_generic d (mk f (dilate_generic d f bc)) bc
+
+(** val list_eqb : z list -> z list -> bool **)
+
+let list_eqb a b =
+  (&&) (Nat.eqb (length a) (length b))
+    (forallb (fun ab -> Z.eqb (fst ab) (snd ab)) (combine a b))
+
+(** val cdilate_loop : dt -> arr -> z list -> arr -> nat -> z list **)
+
+let rec cdilate_loop d f g bc = function
+| O -> f.data
+| S k ->
+  let f' = pmin (dilate_generic d f bc) g in
+  if list_eqb f' f.data then f' else cdilate_loop d (mk f f') g bc k
+
+(** val mh_cdilate : dt -> arr -> z list -> arr -> nat -> z list **)
+
+let mh_cdilate d f g bc n0 =
+  cdilate_loop d (mk f (pmin f.data g)) g bc n0
+
+(** val mh_cerode : dt -> arr -> z list -> arr -> z list **)
+
+let mh_cerode d f g bc =
+  pmax (erode_generic d (mk f (pmax f.data g)) bc) g
+
+(** val subm_d : dt -> z -> z -> z **)
+
+let subm_d d a b =
+  match d with
+  | DBool -> subm { bits = (Zpos XH); signed = false } a b
+  | DInt t -> subm t a b
+
+(** val psubm : dt -> z list -> z list -> z list **)
+
+let psubm d a b =
+  map (fun ab -> subm_d d (fst ab) (snd ab)) (combine a b)
+
+(** val mh_tophat_open : dt -> arr -> arr -> z list **)
+
+let mh_tophat_open d f bc =
+  psubm d f.data (mh_open d f bc)
+
+(** val mh_tophat_close : dt -> arr -> arr -> z list **)
+
+let mh_tophat_close d f bc =
+  psubm d (mh_close d f bc) f.data
